@@ -320,7 +320,8 @@ def sweep(pid, tier, base_seed, runs=None, jobs=None, budget_s=None, write_evide
           (pid, tier, base_seed, runs, jobs, budget_s))
     sys.stdout.flush()
 
-    batch = cfg.get("batch", max(1, min(2000, runs // (jobs * 4) or 1)))
+    # batch boundaries must not depend on the worker count (sweep digests are compared across job counts)
+    batch = cfg.get("batch", 250)
     tasks = []
     k = 0
     while k < runs:
